@@ -811,7 +811,11 @@ def _summarize(func, mutators=None, env0=None):
             if isinstance(st, ast.ClassDef):
                 raise Unsupported(f"class definition inside the function at line {getattr(st, 'lineno', '?')}")
             if isinstance(st, ast.Assert):
+                # a refusal like `if not test: raise`
+                t_ = subst(st.test, env)
                 effects_in_value(st.test, env)
+                if _known_truth(t_) is not True:
+                    guard(neg(t_))
                 continue
             if isinstance(st, (ast.Pass, ast.Global, ast.Nonlocal)):
                 continue
@@ -899,6 +903,10 @@ def _summarize(func, mutators=None, env0=None):
                 effect_of_call(c_, env)
                 continue
             if isinstance(st, ast.Expr):
+                if any(isinstance(x, (ast.Subscript, ast.BinOp, ast.Attribute)) for x in ast.walk(st.value)) \
+                        and not isinstance(st.value, (ast.Constant, ast.Name, ast.JoinedStr)):
+                    # `numbers.shape[1]`, `1 // (2 - n)`: evaluated for nothing but the exception it may raise - a refusal
+                    guard(_call("__may_fault__", subst(st.value, env)))
                 # `a and x.sort()`, `x.pop() if c else None`, `[x.append(1)]`: every call in a discarded expression runs for its effect
                 effects_in_value(st.value, env)
                 for c_ in [n for n in ast.walk(st.value) if isinstance(n, ast.Call)]:
@@ -966,6 +974,9 @@ def _summarize(func, mutators=None, env0=None):
             # opaque compound statement (loops, try, match)
             if _has_exit([st], loop_level=False):
                 raise Unsupported(f"return inside {type(st).__name__.lower()} at line {getattr(st, 'lineno', '?')}")
+            if isinstance(st, (ast.For, ast.AsyncFor, ast.While)) and any(isinstance(x, (ast.Raise, ast.Assert)) for x in ast.walk(st)):
+                # `while cond: raise ..`, `for _ in range(n - 1): raise ..`: a refusal spelled as a loop
+                guard(_call("__raises_in_loop__", subst(st.test if isinstance(st, ast.While) else st.iter, env)))
             # what the block may change in place - through any name that may be the object, aliases made inside the block included
             # (the other names of these objects - the parameter's own `@p` among them - see the change: `mutate`)
             for n in sorted(_mutated_names(st) | _inplace_written(st, grp_all)):
